@@ -1303,7 +1303,7 @@ fn random_script(rng: &mut StdRng, profile: &str) -> Value {
 	let styles = [rng.gen_range(0..11), rng.gen_range(0..11)];
 	let c06 = profile == "c06";
 	let owner = rng.gen_range(0..2);
-	let (history, npay) = random_history(rng, c06, owner);
+	let (mut history, npay) = random_history(rng, c06, owner);
 	let mut chain: Vec<Value> = Vec::new();
 	let close;
 	if c06 {
@@ -1339,8 +1339,19 @@ fn random_script(rng: &mut StdRng, profile: &str) -> Value {
 	} else {
 		let r = rng.gen_range(0..100);
 		close = if r < 45 { json!({"kind":"force","node":rng.gen_range(0..2),"deliver_error":rng.gen_bool(0.25)}) }
-			else if r < 80 { json!({"kind":"counterparty","owner":rng.gen_range(0..2),"which":"current"}) }
-			else { json!({"kind":"counterparty","owner":rng.gen_range(0..2),"which":"previous"}) };
+			else if r < 78 { json!({"kind":"counterparty","owner":rng.gen_range(0..2),"which":"current"}) }
+			else {
+				// the previous commitment is still unrevoked only in the middle of a commitment dance:
+				// end the history with an update that stops right after `owner` received the new
+				// commitment_signed (2 deliveries if it is the payee, 4 if it is the payer)
+				let from = rng.gen_range(0..2);
+				let mut h: Vec<Value> = history.iter().filter(|o| !(o["op"] == "deliver") && !(o["op"] == "pay" && o["deliver"] == json!(false))).cloned().collect();
+				h.push(json!({"op":"deliver_all"}));
+				h.push(json!({"op":"pay","from":from,"amt":(["big", "small", "dust"][rng.gen_range(0..3)]),"deliver":false}));
+				h.push(json!({"op":"deliver","n": if owner == 1 - from { 2 } else { 4 }}));
+				history = h;
+				json!({"kind":"counterparty","owner":owner,"which":"previous"})
+			};
 		let steps = rng.gen_range(0..6);
 		chain.push(json!({"op":"mine","who": if rng.gen_bool(0.8) { json!("all") } else { json!("none") },"n":rng.gen_range(1..3),"prefer": if rng.gen_bool(0.5) {"new"} else {"old"}}));
 		for _ in 0..steps {
